@@ -48,8 +48,11 @@ def _variants(prop: str):
         kf = []
     by_commit: dict[str, list[str]] = {}
     # (prop, commit) pairs whose recorded key does not belong to that commit's own change
+    _lost = ("the order of wake-up and task_done() is not decisive any more: since 4473cc8 every round "
+             "of the I/O loop closes drained CLOSING connections itself")
     REVERT_SKIP = {("C11", "176c149"): "the key was recorded while the follow-up 9e07c6f was missing; "
-                                       "176c149 does not touch the timer pass"}
+                                       "176c149 does not touch the timer pass",
+                   ("C15", "a79d0a4"): _lost, ("C18", "a79d0a4"): _lost, ("C19", "a79d0a4"): _lost}
     for f_ in kf:
         if f_.get("status") == "fixed" and f_.get("property") == prop and f_.get("commit") \
                 and not f_["key"].startswith("review:") and (prop, f_["commit"]) not in REVERT_SKIP:
